@@ -39,7 +39,10 @@ def spec(tier):
             "(predictor, effect variable, grouping variable, component of an interaction factor; string / object / "
             "Categorical / int-code columns) on a random non-empty row set x the three modes, with the mode changed "
             "between evaluations of the same design; configuration space (keys x values x item / attribute / "
-            "constructor assignment, incl. hostile values) exhaustive. distinct = distinct (formula, frame seed, "
+            "constructor assignment, incl. hostile values) exhaustive; special placements on fixed formulas: a missing value in "
+            "the factor, an unseen level while every other factor of the term is zero on all new rows, explicit levels=, "
+            "integer levels beyond 2**53, unseen levels inside a group expr; a third of the planted values merely PRINT "
+            "like a seen level. distinct = distinct (formula, frame seed, "
             "variable, mode); non-trivial = the planted variable occurs in the formula."
         ),
         "assumptions": [
